@@ -593,7 +593,8 @@ def b20(ctx, orc):
              (custom_o, ' '.join, 'custom-object-only'), (' '.join, custom_p, 'custom-property-only'))
     # every form twice: in between the caller customises the drawing it was handed (extra node attributes, an extra
     # edge) -- later drawings of the same lattice must not carry those edits
-    for mo, mp, tag in forms + tuple((a, b, t + ' (after the caller edited an earlier drawing)') for a, b, t in forms):
+    again = tuple((a, b, t + ' (after the caller edited an earlier drawing)') for a, b, t in forms)
+    for mo, mp, tag in tuple(x for pair in zip(forms, again) for x in pair) + again:
         kw = {}
         if mo is custom_o:
             kw['make_object_label'] = mo
